@@ -1766,6 +1766,27 @@ func c06R13(e *Engine) {
 				}
 			}
 		case *ssa.Phi:
+			// ok && lib(a, b): the library call behind a guard that only ever cuts to false
+			var live []ssa.Value
+			for _, ed := range x.Edges {
+				if c, isC := constBool(ed); isC && !c {
+					continue
+				}
+				live = append(live, ed)
+			}
+			if len(live) == 1 {
+				if c, isCall := live[0].(*ssa.Call); isCall {
+					for _, l := range lib {
+						if staticCalleeName(c) == l {
+							a0, a1 := argOf(fn, c.Call.Args[0], 0), argOf(fn, c.Call.Args[1], 0)
+							if a0 == first && a1 == second {
+								return Pass, l + "(operand, pattern) behind a guard"
+							}
+							return Fail, fmt.Sprintf("%s is applied to (argument %d, argument %d): the operands are swapped or not the function's own", l, a0, a1)
+						}
+					}
+				}
+			}
 			// len(a) >= len(b) && a[:len(b)] == b
 			for i, ed := range x.Edges {
 				if c, isC := constBool(ed); isC && !c {
